@@ -539,6 +539,15 @@ func (p *Parser) evaluateValues(ctx context) (evaluatedValues, error) {
 			return evaluatedValues{}, p.expectedError(fmt.Sprintf(`only one return value from function "%s"`, funcName), exprToken)
 		}
 	}
+
+	// A function which returns several values can only be used alone.
+	if len(expressions) > 1 {
+		for _, expr := range expressions {
+			if call, ok := expr.(Call); ok && len(call.ReturnTypes()) > 1 {
+				return evaluatedValues{}, fmt.Errorf("multi-value call cannot be part of a value list: %s", p.path)
+			}
+		}
+	}
 	return evaluatedValues{
 		values: expressions,
 	}, nil
